@@ -25,6 +25,9 @@ def build(ctx, rule):
     if v.run is None:
         raise AnalysisError(rule, mod.relpath, "cannot find the function that seeks and prints the selected records")
     ctx.analysed_func(v.run)
+    from ..core import desugar_ifexp
+
+    v.run = desugar_ifexp(v.run)  # conditional expressions (as values, call arguments, context managers) read as if / else
     run = v.run
     # emission loops: for <o> in <offsets>: <x> = <gaf>.read_line(<o>)
     v.emit_loops = []
